@@ -13,6 +13,7 @@ use proptest::strategy::ValueTree;
 use serde_json::json;
 use std::collections::BTreeSet;
 use std::ops::Range;
+use std::path::Path;
 
 #[derive(Clone, Debug, serde::Serialize, serde::Deserialize)]
 pub struct Mutation {
@@ -490,7 +491,7 @@ pub fn run(tier: Tier) -> i32 {
         "C13",
         tier,
         "exploration",
-        "inputs: 1-3 structure-aware mutations (delete/duplicate/swap/unwrap an element, drop/blank an attribute, retarget a QName to another one / a dangling one / the enclosing component itself, swap tag names, splice a subtree from another file, rename to keywords and odd names, duplicate names, retarget imports/namespaces/addresses, truncate, inject non-XML) applied by proptest to the repository's schemas (below 300 KB in quick), generated WSDLs, import graphs and an extension/list/union/group schema; plus fixed API-edge probes. Every generation (read_xml then write_xml) runs in an isolated worker process with a watchdog (10 s + 1 s per 100 KB, confirmed twice at 3x). Oracle: outcome class is returned-Ok or returned-Err; never panic, signal or timeout. Non-trivial: the mutated start file is still well-formed XML with a schema/definitions root (so the reader proper is reached); distinct by (applied mutation kinds, base document, outcome class, file-set hash).",
+        "quick and thorough: 1-3 structure-aware mutations (delete/duplicate/swap/unwrap an element, drop/blank an attribute, retarget a QName to another one / a dangling one / the enclosing component itself, swap tag names, splice a subtree from another file, rename to keywords and odd names, duplicate names, retarget imports/namespaces/addresses, truncate, inject non-XML) applied by proptest to the repository's schemas (below 300 KB in quick), generated WSDLs, import graphs and an extension/list/union/group schema; plus fixed API-edge probes. Every generation (read_xml then write_xml) runs in an isolated worker process with a watchdog (10 s + 1 s per 100 KB, confirmed twice at 3x). Oracle: outcome class is returned-Ok or returned-Err; never panic, signal or timeout. Non-trivial: the mutated start file is still well-formed XML with a schema/definitions root (so the reader proper is reached); distinct by (applied mutation kinds, base document, outcome class, file-set hash). Thorough adds a coverage-guided libFuzzer campaign (/verif/fuzz, fork mode, 16 jobs, wall budget in extra.fuzz) seeded with the same corpus; its artifacts and its final corpus are re-run in the worker, which alone decides (classes fuzz.*).",
     );
     ev.assume("stack size of the generating thread is 8 MiB (what a CLI main thread has)");
     let bases = seed_corpus(tier);
@@ -566,7 +567,166 @@ pub fn run(tier: Tier) -> i32 {
         let fs_json = if fs.total_len() < 400_000 { json!(fs) } else { json!({"too_large": true, "start": fs.start}) };
         route_failure(&mut ev, &findings, "crash", &sig, json!({"fileset": fs_json, "detail": detail}));
     }
+    if tier == Tier::Thorough || std::env::var("VH_C13_FUZZ").is_ok() {
+        fuzz_phase(&mut ev, &findings, &bases, &mut reported);
+    }
     ev.finish()
+}
+
+// ---------------------------------------------------------------------------------------------
+// coverage-guided campaign (libFuzzer, /verif/fuzz): thorough tier
+
+const SEPARATOR: &str = "\n=====FILE=====\n";
+
+/// A file set in the text container the fuzz target reads: start file first, siblings after it,
+/// file names replaced by f0.wsdl, f1.xsd, ... in every schemaLocation / location attribute.
+fn to_container(fs: &FileSet) -> String {
+    let mut order: Vec<usize> = (0..fs.files.len()).collect();
+    if let Some(si) = fs.files.iter().position(|f| f.0 == fs.start) {
+        order.swap(0, si);
+    }
+    let new_name = |k: usize| if k == 0 { "f0.wsdl".to_string() } else { format!("f{k}.xsd") };
+    let mut texts: Vec<String> = order.iter().map(|i| fs.files[*i].1.clone()).collect();
+    for t in &mut texts {
+        for (k, i) in order.iter().enumerate() {
+            *t = t.replace(&format!("ocation=\"{}\"", fs.files[*i].0), &format!("ocation=\"{}\"", new_name(k)));
+        }
+    }
+    texts.join(SEPARATOR)
+}
+
+fn from_container(text: &str) -> FileSet {
+    let mut files = vec![];
+    for (k, p) in text.split(SEPARATOR).enumerate().take(7) {
+        files.push((if k == 0 { "f0.wsdl".to_string() } else { format!("f{k}.xsd") }, p.to_string()));
+    }
+    FileSet { start: "f0.wsdl".into(), files }
+}
+
+fn fuzz_phase(ev: &mut Evidence, findings: &Findings, bases: &[(String, FileSet)], reported: &mut BTreeSet<String>) {
+    use std::process::Command;
+    let secs: u64 = std::env::var("VH_C13_FUZZ_SECS").ok().and_then(|v| v.parse().ok()).unwrap_or(600);
+    let fuzz_dir = Path::new(crate::common::VERIF).join("fuzz");
+    let build = Command::new("cargo")
+        .args(["+nightly", "fuzz", "build", "--fuzz-dir"])
+        .arg(&fuzz_dir)
+        .arg("read_write")
+        .current_dir(&fuzz_dir)
+        .env("CARGO_NET_OFFLINE", "true")
+        .output();
+    let built = matches!(&build, Ok(o) if o.status.success());
+    let bin = fuzz_dir.join("target/x86_64-unknown-linux-gnu/release/read_write");
+    if !built || !bin.exists() {
+        let why = build.map(|o| String::from_utf8_lossy(&o.stderr).lines().filter(|l| l.starts_with("error")).take(3).collect::<Vec<_>>().join(" | ")).unwrap_or_else(|e| e.to_string());
+        ev.extra.insert("fuzz".into(), json!({"skipped": format!("the libFuzzer target did not build: {why}")}));
+        ev.assume("the coverage-guided campaign was skipped: the fuzz target did not build (see extra.fuzz)");
+        return;
+    }
+    let scratch = crate::common::scratch_dir("c13-fuzz");
+    let corpus = scratch.join("corpus");
+    let arts = scratch.join("artifacts");
+    std::fs::create_dir_all(&corpus).unwrap();
+    std::fs::create_dir_all(&arts).unwrap();
+    let mut n_seeds = 0;
+    for (i, (_, fs)) in bases.iter().enumerate() {
+        if fs.total_len() < 120_000 && fs.files.len() <= 7 && fs.files.iter().all(|f| nesting_depth(&f.1) < 300) {
+            std::fs::write(corpus.join(format!("seed{i:03}")), to_container(fs)).unwrap();
+            n_seeds += 1;
+        }
+    }
+    let seed = crate::common::seed().wrapping_add(1).max(1) % 0xffff_ffff;
+    let out = Command::new(&bin)
+        .arg(&corpus)
+        .args([
+            "-fork=16",
+            "-ignore_crashes=1",
+            "-ignore_timeouts=1",
+            "-ignore_ooms=1",
+            "-timeout=25",
+            "-rss_limit_mb=4096",
+            "-max_len=131072",
+            "-len_control=0",
+            "-print_final_stats=1",
+        ])
+        .arg(format!("-max_total_time={secs}"))
+        .arg(format!("-seed={seed}"))
+        .arg(format!("-dict={}", fuzz_dir.join("xsd.dict").display()))
+        .arg(format!("-artifact_prefix={}/", arts.display()))
+        .current_dir(&scratch)
+        .output();
+    let log = out.map(|o| String::from_utf8_lossy(&o.stderr).to_string()).unwrap_or_default();
+    // "#12345: cov: 4321 ft: 9999 corp: 321 exec/s 100 ..."
+    let (mut execs, mut cov, mut ft) = (0u64, 0u64, 0u64);
+    for l in log.lines() {
+        if let Some(rest) = l.strip_prefix('#') {
+            let num = |key: &str| rest.split(key).nth(1).and_then(|x| x.trim().split_whitespace().next()).and_then(|x| x.parse::<u64>().ok());
+            if let (Some(e), Some(c)) = (rest.split(':').next().and_then(|x| x.trim().parse::<u64>().ok()), num("cov:")) {
+                execs = execs.max(e);
+                cov = cov.max(c);
+                ft = ft.max(num("ft:").unwrap_or(0));
+            }
+        }
+    }
+    // every artifact is re-run in the isolated worker, which decides
+    let mut art_sets: Vec<(String, FileSet)> = vec![];
+    if let Ok(rd) = std::fs::read_dir(&arts) {
+        let mut names: Vec<_> = rd.flatten().map(|e| e.path()).collect();
+        names.sort();
+        for p in names {
+            if let Ok(bytes) = std::fs::read(&p) {
+                if let Ok(text) = String::from_utf8(bytes) {
+                    art_sets.push((p.file_name().unwrap().to_string_lossy().to_string(), from_container(&text)));
+                }
+            }
+        }
+    }
+    // and so is the corpus the campaign ended with (the coverage-distinct inputs it found)
+    let mut corp_sets: Vec<FileSet> = vec![];
+    if let Ok(rd) = std::fs::read_dir(&corpus) {
+        let mut names: Vec<_> = rd.flatten().map(|e| e.path()).collect();
+        names.sort();
+        for p in names {
+            if let Ok(text) = std::fs::read_to_string(&p) {
+                corp_sets.push(from_container(&text));
+            }
+        }
+    }
+    let n_art = art_sets.len();
+    let mut all: Vec<FileSet> = art_sets.iter().map(|a| a.1.clone()).collect();
+    all.extend(corp_sets.iter().cloned());
+    let outs = worker::run_all(&all, 16);
+    let mut not_reproduced = 0;
+    let mut fails: Vec<(usize, String, String)> = vec![];
+    for (i, o) in outs.iter().enumerate() {
+        let nt = reached_reader(&all[i]);
+        let origin = if i < n_art { "fuzz-artifact" } else { "fuzz-corpus" };
+        ev.case(&format!("{origin}|{}|{:016x}", o.class(), hash64(&format!("{:?}", all[i]))), nt);
+        ev.class(&format!("fuzz.{origin}.{}", o.class()));
+        match failure_of_input(&all[i], o) {
+            Some((sig, detail)) => fails.push((i, format!("C13 {sig}"), detail)),
+            None if i < n_art => not_reproduced += 1,
+            None => {}
+        }
+    }
+    fails.sort_by_key(|(i, sig, _)| (sig.clone(), all[*i].total_len()));
+    for (i, sig, detail) in fails {
+        if !reported.insert(sig.clone()) {
+            ev.class("further-failing-inputs");
+            continue;
+        }
+        route_failure(ev, findings, "crash", &sig, json!({"fileset": all[i], "detail": detail, "found_by": "libFuzzer"}));
+    }
+    ev.extra.insert(
+        "fuzz".into(),
+        json!({
+            "engine": "libFuzzer (cargo-fuzz, /verif/fuzz, target read_write), fork mode, 16 jobs",
+            "wall_budget_s": secs, "seed": seed, "seed_inputs": n_seeds,
+            "executions": execs, "coverage_edges": cov, "features": ft,
+            "final_corpus": corp_sets.len(), "artifacts": n_art, "artifacts_not_reproduced_in_worker": not_reproduced,
+            "excluded_by_construction": "inputs nested deeper than 400 elements (open finding F16) are skipped inside the target",
+        }),
+    );
+    let _ = std::fs::remove_dir_all(&scratch);
 }
 
 pub fn replay(case: &serde_json::Value) -> i32 {
